@@ -686,5 +686,8 @@ def run(ctx) -> None:
     # "the header members returned are the ones that were signed": key resolution on the consuming side never writes a kid into the received header
     from .c14 import r14_2
     ctx.guard_as("R01.11", r14_2)
+    # "under ... the algorithm named in its header": the model the gate hands out is the table entry of exactly the name asked for (no aliasing)
+    from .c05 import r05_3
+    ctx.guard_as("R01.12", r05_3)
     ctx.assume("pyca/cryptography verify primitives reject every forged signature (unforgeability is trusted)")
     ctx.assume("receiver types as inferred by mypy; class-hierarchy analysis for dynamic dispatch")
